@@ -27,6 +27,12 @@ CLAIMED = {
  "C11": ("Coq proof (uriEqualsUri characterised by a key function; injective on NUL-free texts) + all-pairs correspondence",
          "Theorems: equality holds iff all components are identical (IP hosts by value, absent never equal to empty) for NUL-free texts; reflexive, symmetric, transitive for all values incl. NULL; identical components give identical text. Tied to src/UriCompare.c by all ordered pairs over a pool of raw objects differing in one component and parsed texts, plus pairs of library-produced objects compared with their recomposed texts. The converse text direction is checked on library-produced objects at run time (known finding D6).",
          TB, "5 C11"),
+ "C13": ("Coq proof (ledger invariant [owns]/[balanced] by induction over each engine and over arbitrary operation histories) on the memory tier of the model + allocation-trace correspondence + libc interposition run",
+         "Theorems for every text/object, every well-formed ledger state, every fault plan and unbounded sizes: free-members releases exactly the object's blocks, each live, and is idempotent; parse, make-owner, normalize (any mask, borrowed or owned), resolve and create-reference leave the ledger equal to 'blocks of the result + what was there', with no bad release; any history of these steps over a store of objects from the empty ledger stays balanced and ends with no live block once every object is released. Tied to the code by comparing complete allocation traces (request sizes in characters, order, releases) of model and implementation for every call. The clauses 'nothing bypasses the manager' and 'incomplete manager rejected first' are observed on the implementation (interposed libc allocator, pool manager) and not theorems; the three query functions have no memory-tier model yet (history theorems carry _partial).",
+         TB + " The ledger model has one allocator by construction; block contents are not modelled.", "5 C13"),
+ "C14": ("Coq proof (same ledger development: out-of-memory iff a request was refused, clean state after the caller's cleanup, fault transparency) + fault-injection correspondence at every position k in both modes",
+         "Theorems for every input, ledger state and fault plan (no hypothesis on the plan): each of parse, make-owner, normalize, resolve, create-reference returns the out-of-memory code iff a request made during the call was refused; after the caller's free-members nothing is outstanding beyond what was there, the bad-release counter is unchanged and a second cleanup is a no-op; read-only inputs keep their blocks; when no request is refused the result, ledger and trace equal those of the fault-free run. normalize on a borrowed object needs the object to be [sane] (scheme / IPvFuture text not present-but-empty): parsed objects are, every operation keeps it, and without it the statement is refuted (hand-built object, reproduced on the code; see DESIGN.md). Tied to the code by injecting a failure at every k (fail-once and fail-from) into every call and comparing return code, resulting object, trace and leftover blocks; ASan flavours watch for touched released memory. Dissect/compose query are checked on the implementation only.",
+         TB + " Reads and writes of block contents are not modelled ('no released memory is touched' rests on ASan runs plus [owns] of the object left behind).", "5 C14"),
  "C15": ("Coq proof (refinement of an ideal allocator by simulation, induction over operation histories, size_t arithmetic mod 2^64) + history correspondence against the real uriCompleteMemoryManager",
          "Theorems for every finite history of malloc/calloc/realloc/reallocarray/free with arbitrary size_t arguments and any backend failure plan: the decorated manager refines the ideal allocator; every backend block is released exactly once with the backend's own pointer; nothing stays allocated once the caller freed everything. Tied to src/UriMemory.c by random and enumerated histories over a logging, failure-injecting backend.",
          TB, "5 C15"),
